@@ -934,6 +934,11 @@ class Machine:
         cmp = {'Eq': lambda x, y: x == y, 'Ne': lambda x, y: x != y, 'Lt': lambda x, y: x < y, 'Le': lambda x, y: x <= y,
                'Gt': lambda x, y: x > y, 'Ge': lambda x, y: x >= y}
         if op in cmp:
+            # a byte taken from a str that stands for a &[u8] (as_bytes is modelled by value) compared with a u8
+            if isinstance(a, str) and len(a) == 1 and isinstance(b, int) and not isinstance(b, bool) and ord(a) < 128:
+                a = ord(a)
+            if isinstance(b, str) and len(b) == 1 and isinstance(a, int) and not isinstance(a, bool) and ord(b) < 128:
+                b = ord(b)
             return cmp[op](a, b)
         if op in ('Add', 'Sub', 'Mul', 'AddUnchecked', 'SubUnchecked', 'MulUnchecked'):
             r = a + b if op[0] == 'A' else a - b if op[0] == 'S' else a * b
